@@ -38,7 +38,16 @@
  *   TOTAL  ...
  */
 #define _GNU_SOURCE
+/* imb_hmac_ipad_opad() is an exported helper, not an IMB_MGR handler: the key preparation of imbh.c calls it by name.
+ * It is routed through a spare trampoline slot so that it runs on the library's private stack like every handler
+ * (and is followed by the same register / stack scans); see k13_hmac_ipad_opad() below. */
+#include <intel-ipsec-mb.h>
+static void
+k13_hmac_ipad_opad(IMB_MGR *mb_mgr, const IMB_HASH_ALG sha_type, const void *pkey, const size_t key_len, void *ipad_hash,
+                   void *opad_hash);
+#define imb_hmac_ipad_opad k13_hmac_ipad_opad
 #include "imbh.c" /* one translation unit: struct imbh_keys is needed */
+#undef imb_hmac_ipad_opad
 
 #include <sys/mman.h>
 #include <ipsec_ooo_mgr.h>
@@ -1143,6 +1152,30 @@ k13_post(const uint64_t slot)
         stack_report(slot);
         if (!prep_phase)
                 mgr_scan(slot, 0);
+}
+
+/* exported helpers routed through spare slots (behind the handlers of the manager) */
+#define K13_SLOT_HMAC_IPAD_OPAD (K13_NSLOTS - 1)
+typedef void (*k13_ipad_opad_fn)(IMB_MGR *, const IMB_HASH_ALG, const void *, const size_t, void *, void *);
+
+static void
+k13_hmac_ipad_opad(IMB_MGR *mb_mgr, const IMB_HASH_ALG sha_type, const void *pkey, const size_t key_len, void *ipad_hash,
+                   void *opad_hash)
+{
+        if (!sched_active || mb_mgr != tmgr) {
+                imb_hmac_ipad_opad(mb_mgr, sha_type, pkey, key_len, ipad_hash, opad_hash);
+                return;
+        }
+        k13_orig[K13_SLOT_HMAC_IPAD_OPAD] = (void *) imb_hmac_ipad_opad;
+        snprintf(slot_names[K13_SLOT_HMAC_IPAD_OPAD], sizeof(slot_names[0]), "imb_hmac_ipad_opad");
+        k13_ipad_opad_fn f = (k13_ipad_opad_fn) (void *) (k13_stubs + 16 * K13_SLOT_HMAC_IPAD_OPAD);
+        uint8_t scratch[2][128];
+
+        /* the application may ask for one of the two outputs only: same secrets, other paths through the helper */
+        f(mb_mgr, sha_type, pkey, key_len, scratch[0], NULL);
+        f(mb_mgr, sha_type, pkey, key_len, NULL, scratch[1]);
+        f(mb_mgr, sha_type, pkey, key_len, ipad_hash, opad_hash);
+        memset(scratch, 0, sizeof(scratch));
 }
 
 static void
